@@ -14,6 +14,15 @@ Proof. reflexivity. Qed.
 Lemma fft_parity df fwd call K : call - fft_put df fwd call K = df * (fwd - K).
 Proof. unfold fft_put. ring. Qed.
 
+Lemma disc_fwd r d S K T : exp (- r * T) * (S * exp ((r - d) * T) - K) = S * exp (- d * T) - K * exp (- r * T).
+Proof.
+  replace ((r - d) * T) with (r * T + - d * T) by ring. rewrite exp_plus.
+  assert (E : exp (- r * T) * exp (r * T) = 1). { rewrite <- exp_plus. replace (- r * T + r * T) with 0 by ring. apply exp_0. }
+  replace (exp (- r * T) * (S * (exp (r * T) * exp (- d * T)) - K))
+    with (S * exp (- d * T) * (exp (- r * T) * exp (r * T)) - K * exp (- r * T)) by ring.
+  rewrite E. ring.
+Qed.
+
 (* ------------------------------------------------------------------ COS coefficients *)
 Lemma xi_prim_derive (cst a x : R) : is_derive (xi_prim cst a) x (exp x * cos (cst * (x - a))).
 Proof. unfold xi_prim. auto_derive. exact I. unfold Rminus. field. nra. Qed.
@@ -209,6 +218,39 @@ Proof.
   rewrite Hu, H1. rewrite <- !exp_plus. f_equal. ring.
 Qed.
 
+(* put-call parity with every leg computed as the code computes it: forward = df * (spot * model.mean(T) - K) with
+   model.mean generated from the exponential model (omega = -kappa(1)), df = exp(-r T); put = K * (pricing sum);
+   call = forward + put (COS) resp. put = call - forward (FFT) *)
+Lemma cos_parity_model kappa r d S K T pf :
+  cos_call (exp_df r T) (cos_fwd S (exp_mean (exp_mgf kappa r d) T)) (cos_put K pf) K - cos_put K pf
+  = S * exp (- d * T) - K * exp (- r * T)
+  /\ cos_forward (exp_df r T) (cos_fwd S (exp_mean (exp_mgf kappa r d) T)) K = S * exp (- d * T) - K * exp (- r * T).
+Proof.
+  rewrite exp_mean_martingale. unfold cos_call, cos_forward, cos_fwd, cos_put, exp_df. split.
+  - rewrite <- disc_fwd. ring.
+  - apply disc_fwd.
+Qed.
+Lemma fft_parity_model kappa r d S K T call :
+  call - fft_put (fft_df r T) (fft_fwd S (exp_mean (exp_mgf kappa r d) T)) call K = S * exp (- d * T) - K * exp (- r * T).
+Proof. rewrite exp_mean_martingale. unfold fft_put, fft_df, fft_fwd. rewrite <- disc_fwd. ring. Qed.
+
+(* ------------------------------------------------------------------ the Gaussian integral PhiR is symmetric *)
+Lemma gauss_continuous z : continuous (fun t : R => exp (- (t * t) / 2)) z.
+Proof. apply (ex_derive_continuous (fun t : R => exp (- (t * t) / 2))). auto_derive. exact I. Qed.
+Lemma gauss_RInt_odd x : RInt (fun t => exp (- (t * t) / 2)) 0 (- x) = - RInt (fun t => exp (- (t * t) / 2)) 0 x.
+Proof.
+  set (f := fun t : R => exp (- (t * t) / 2)).
+  assert (H : is_RInt f 0 x (RInt f 0 x)). { apply (@RInt_correct R_CompleteNormedModule). apply (@ex_RInt_continuous R_CompleteNormedModule). intros z _. apply gauss_continuous. }
+  assert (H1 : is_RInt f (- 0) (- - x) (RInt f 0 x)). { replace (- 0) with 0 by ring. replace (- - x) with x by ring. exact H. }
+  apply (is_RInt_comp_opp f 0 (- x)) in H1.
+  apply (@is_RInt_opp R_NormedModule) in H1.
+  apply is_RInt_unique.
+  apply (is_RInt_ext (fun y : R => opp (opp (f (- y))))); [|exact H1].
+  intros y _. unfold opp; simpl. unfold f. replace (- y * - y) with (y * y) by ring. ring.
+Qed.
+Lemma PhiR_symmetric x : PhiR x + PhiR (- x) = 1.
+Proof. unfold PhiR. rewrite gauss_RInt_odd. field. apply Rgt_not_eq, sqrt_lt_R0. pose proof PI_RGT_0. lra. Qed.
+
 (* ------------------------------------------------------------------ VG is CGMY with C = 1/nu, G = lambda_-, M = lambda_+, Y = 0 *)
 Lemma vg_cgmy_exponent sigma nu theta x CG GY MY :
   0 < sigma -> 0 < nu ->
@@ -262,16 +304,21 @@ Definition Phi_like (Phi : R -> R) : Prop :=
   (forall x, Phi x + Phi (- x) = 1) /\ (forall x, 0 <= Phi x <= 1) /\ (forall x y, x <= y -> Phi x <= Phi y).
 
 Lemma parity_exact_all :
-  (forall df fwd put K, cos_call df fwd put K - put = df * (fwd - K))
-  /\ (forall df fwd K, cos_forward df fwd K = df * (fwd - K))
-  /\ (forall df fwd call K, call - fft_put df fwd call K = df * (fwd - K))
-  /\ (forall Phi, Phi_like Phi -> forall r d S sigma K T,
-        bs_call Phi r d S sigma K T - bs_put Phi r d S sigma K T = exp (- r * T) * (S * exp ((r - d) * T) - K)
-        /\ bs_call Phi r d S sigma K T - bs_put Phi r d S sigma K T = bs_forward r d S K T).
+  (forall kappa r d S K T pf,
+      cos_call (exp_df r T) (cos_fwd S (exp_mean (exp_mgf kappa r d) T)) (cos_put K pf) K - cos_put K pf
+      = S * exp (- d * T) - K * exp (- r * T)
+      /\ cos_forward (exp_df r T) (cos_fwd S (exp_mean (exp_mgf kappa r d) T)) K = S * exp (- d * T) - K * exp (- r * T))
+  /\ (forall kappa r d S K T call,
+      call - fft_put (fft_df r T) (fft_fwd S (exp_mean (exp_mgf kappa r d) T)) call K = S * exp (- d * T) - K * exp (- r * T))
+  /\ (forall Phi, Phi_like Phi -> forall r d S sigma K T, 0 < S -> 0 < K -> 0 < sigma -> 0 < T ->
+        bs_call Phi r d S sigma K T - bs_put Phi r d S sigma K T = S * exp (- d * T) - K * exp (- r * T)
+        /\ bs_forward r d S K T = S * exp (- d * T) - K * exp (- r * T)).
 Proof.
   repeat apply conj.
-  - exact cos_parity. - exact cos_forward_eq. - exact fft_parity.
-  - intros Phi (Hs & _ & _) r d S sigma K T. split; [apply bs_parity | apply bs_parity_forward]; exact Hs.
+  - exact cos_parity_model. - exact fft_parity_model.
+  - intros Phi (Hs & _ & _) r d S sigma K T _ _ _ _. split.
+    + rewrite bs_parity by exact Hs. apply disc_fwd.
+    + reflexivity.
 Qed.
 
 Lemma vg_is_cgmy_all : forall sigma nu theta CG GY MY,
@@ -308,15 +355,15 @@ Lemma simpson_all : forall eta,
   /\ (forall j, fft_simpson_w eta j = simpson_target eta j).
 Proof. intro eta. repeat apply conj. apply simpson_0. apply simpson_odd. apply simpson_even. apply simpson_weights. Qed.
 
-Lemma bs_closed_form_all : forall Phi, Phi_like Phi -> forall r d S sigma K T,
+Lemma bs_closed_form_all : forall Phi, Phi_like Phi -> forall r d S sigma K T, 0 < S -> 0 < K -> 0 <= sigma -> 0 <= T ->
   (bs_call Phi r d S sigma K T - bs_put Phi r d S sigma K T = bs_forward r d S K T)
-  /\ (0 <= S -> 0 <= K -> bs_call Phi r d S sigma K T <= exp (- r * T) * (S * exp ((r - d) * T)))
-  /\ (0 <= S -> 0 <= K -> bs_put Phi r d S sigma K T <= exp (- r * T) * K)
+  /\ (bs_call Phi r d S sigma K T <= exp (- r * T) * (S * exp ((r - d) * T)))
+  /\ (bs_put Phi r d S sigma K T <= exp (- r * T) * K)
   /\ (bs_degenerate S sigma T = true -> forall flag,
         bs_call_put Phi r d S sigma flag K T = exp (- r * T) * Rmax 0 (flag * (S * exp ((r - d) * T) - K))).
 Proof.
-  intros Phi (Hs & Hr & _) r d S sigma K T. repeat apply conj.
-  - apply bs_parity_forward, Hs. - apply bs_call_upper, Hr. - apply bs_put_upper, Hr.
+  intros Phi (Hs & Hr & _) r d S sigma K T HS HK _ _. repeat apply conj.
+  - apply bs_parity_forward, Hs. - apply bs_call_upper; [exact Hr | lra | lra]. - apply bs_put_upper; [exact Hr | lra | lra].
   - intros H flag. apply bs_degenerate_intrinsic, H.
 Qed.
 
